@@ -1451,6 +1451,14 @@ M('C13', 'UniformMPS.to_MPS canonicalises only with check_overlap (round-5 seed 
   "        MPS_B.canonical_form()\n        if check_overlap:\n", "        if check_overlap:\n            MPS_B.canonical_form()\n",
   'HOOKS-final-canonical')
 
+M('C14', 'reinit_model forces re-preparation only for a new model object (round-5 seed b)', ALG,
+  "        self.model = self.model.update_time_parameter(self.evolved_time)\n        self.force_prepare_evolve = True\n",
+  "        model = self.model.update_time_parameter(self.evolved_time)\n        if model is not self.model:\n            self.model = model\n            self.force_prepare_evolve = True\n",
+  'CACHE-invalidate')
+M('C14', 'TDVP prepare_evolve clears the environments only if chi changed (round-5 seed a)', TDVP,
+  "            self.env.clear()\n\n            logger.info(f'Original bond dimension: {self.psi.chi}.')", "            chi_before = list(self.psi.chi)\n            logger.info(f'Original bond dimension: {self.psi.chi}.')",
+  'CACHE-invalidate')
+
 # ---------------------------------------------------------------- C16 / C19
 M('C16', 'GMRES restart: relative residual norm used for normalisation (round-3 seed b)', KRY,
   """        self.total_error.append([npc.norm(self.rs[-1]) / self.b_norm])
